@@ -33,6 +33,9 @@ impl Check for C10 {
             (true, true) => run2::<f32>(src, obs),
         }
     }
+    fn regressions(&self) -> Vec<(&'static str, fn() -> Result<(), Fail>)> {
+        vec![("d2-rank-too-small", super::regress::d2_rank_too_small)]
+    }
     fn rule(&self) -> String {
         "the builder decision table with independent choices per requirement: strategy (Linear min 2, CubicSpline min 3 with every boundary \
          selection, custom recording strategies with declared minimum 0..4; Bilinear and custom 2-D); data rank (dynamic 0 / 1 / ok, static); \
